@@ -83,6 +83,62 @@ example : findMissingEdges (exInput false) = [⟨"A", 1, "B", 2⟩] ∧ findMiss
   simp only [exInput, List.mem_cons, List.mem_nil_iff, or_false] at hnd
   rcases hnd with h | h <;> subst h <;> exact ⟨by decide, by decide⟩
 
+/-! ### the recount: warnings + realised edges = residue-graph edges -/
+
+/-- residue-graph edges whose two residues are joined by an atom-level edge -/
+def realised (inp : Input) : List (Nat × Nat) :=
+  inp.redges.filter fun e =>
+    match inp.node? e.1, inp.node? e.2 with
+    | some A, some B => joined inp A B
+    | _, _ => false
+
+/-- counting lemma: a `filterMap` and a `filter` that split a list between them -/
+theorem C10_filterMap_filter_count {α β} (l : List α) (f : α → Option β) (g : α → Bool)
+    (h : ∀ e ∈ l, (f e).isSome = !g e) :
+    (l.filterMap f).length + (l.filter g).length = l.length := by
+  induction l with
+  | nil => rfl
+  | cons x xs ih =>
+    have hx := h x List.mem_cons_self
+    have ih' := ih (fun e he => h e (List.mem_cons_of_mem _ he))
+    cases hg : g x <;> cases hf : f x <;> simp_all <;> omega
+
+/-- **C10_count** — "never both and never neither" as an independent recount: when both ends of every
+residue-graph edge are residues of the molecule, the number of missing-link records plus the number of
+realised residue-graph edges is the number of residue-graph edges. -/
+theorem C10_count (inp : Input) (hM : Canon inp.medges)
+    (hF : ∀ nd ∈ inp.nodes, FragOK inp nd)
+    (hdisj : ∀ e ∈ inp.redges, ∀ A B, inp.node? e.1 = some A → inp.node? e.2 = some B → ∀ a ∈ A.frag, a ∉ B.frag)
+    (hres : ∀ e ∈ inp.redges, (inp.node? e.1).isSome = true ∧ (inp.node? e.2).isSome = true) :
+    (findMissingEdges inp).length + (realised inp).length = inp.redges.length := by
+  rw [C10_missing_eq_spec inp hM hF hdisj]
+  unfold specMissing realised
+  apply C10_filterMap_filter_count
+  intro e he
+  obtain ⟨h1, h2⟩ := hres e he
+  cases hA : inp.node? e.1 with
+  | none => rw [hA] at h1; cases h1
+  | some A =>
+    cases hB : inp.node? e.2 with
+    | none => rw [hB] at h2; cases h2
+    | some B => simp only []; cases joined inp A B <;> rfl
+
+/-- every record stands for an unrealised edge and every unrealised edge has its record, position by position -/
+theorem C10_realised_iff (inp : Input) (hM : Canon inp.medges)
+    (hF : ∀ nd ∈ inp.nodes, FragOK inp nd)
+    (hdisj : ∀ e ∈ inp.redges, ∀ A B, inp.node? e.1 = some A → inp.node? e.2 = some B → ∀ a ∈ A.frag, a ∉ B.frag)
+    (e : Nat × Nat) (A B : RNode) (hA : inp.node? e.1 = some A) (hB : inp.node? e.2 = some B) (he : e ∈ inp.redges) :
+    (e ∈ realised inp ↔ (findConnectingEdges inp A B).isEmpty = false) := by
+  have hAm : A ∈ inp.nodes := List.mem_of_find?_eq_some hA
+  have hBm : B ∈ inp.nodes := List.mem_of_find?_eq_some hB
+  rw [connecting_isEmpty_iff inp A B hM (hF A hAm) (hF B hBm) (hdisj e he A B hA hB)]
+  unfold realised
+  simp only [List.mem_filter, he, true_and, hA, hB]
+  cases joined inp A B <;> simp
+
+example : (findMissingEdges (exInput false)).length + (realised (exInput false)).length = 1 ∧
+    (realised (exInput true)) = [(0, 1)] := by decide
+
 /-- **C10_gate.**  `_check_molecules` raises iff the RESIDUE graph of some molecule is not connected
 (`isConnected` = every node lies within `n` breadth-first levels of the first one, `C10_within_iff`). -/
 theorem C10_gate (mols : List Mol) :
